@@ -585,4 +585,41 @@ theorem not_mem_text_noexp {c : Char} (hd : c.isDigit = false) (h1 : c ≠ '-') 
     exact ⟨h3, not_mem_of_allDigits hd f hf.1⟩
 
 
+/-! ### `format_float_yq_with` -/
+
+theorem splitOnce_of_not_mem (c : Char) (a b : Str) (h : c ∉ a) :
+    splitOnce c (a ++ c :: b) = some (a, b) := by
+  induction a with
+  | nil => simp [splitOnce]
+  | cons d t ih =>
+    simp only [List.mem_cons, not_or] at h
+    have hd : d ≠ c := fun e => h.1 e.symm
+    have := ih h.2
+    unfold splitOnce at this ⊢
+    simp only [List.cons_append, List.dropWhile_cons, List.takeWhile_cons, bne_iff_ne, ne_eq, hd,
+      not_false_eq_true, decide_true, if_true]
+    split at this
+    · simp at this
+    · rename_i heq; rw [heq]; simp only [Option.some.injEq, Prod.mk.injEq] at this ⊢
+      exact ⟨by rw [this.1], this.2⟩
+
+theorem pad2_spec (n : Nat) : allDigits (pad2 n) = true ∧ digitsVal (pad2 n) = n ∧ pad2 n ≠ [] := by
+  have h := natDigits_spec n
+  unfold pad2
+  simp only
+  split
+  · exact ⟨by rw [allDigits_cons, h.1]; decide, by rw [digitsVal_zero_cons, h.2.1], by simp⟩
+  · exact h
+
+theorem readInt_signed (s d : Str) (hs : isSignStr s) (hd : allDigits d = true) (hne : d ≠ []) :
+    readInt (s ++ d) = some (if s == ['-'] then -(digitsVal d : Int) else (digitsVal d : Int)) := by
+  have hss : stripSign (s ++ d) = (s == ['-'], d) := by
+    apply stripSign_signStr s hs d
+    intro c t e; subst e
+    have hc : c.isDigit = true := by rw [allDigits_cons, Bool.and_eq_true] at hd; exact hd.1
+    exact ⟨isDigit_ne_minus hc, isDigit_ne_plus hc⟩
+  have hdne : d.isEmpty = false := by cases d <;> simp_all
+  simp [readInt, hss, hd, hdne]
+
+
 end SV.NumFmt
